@@ -63,7 +63,7 @@ def configs(tier):
                         if imp == 'default' and m > 1:
                             continue
                         c = dict(d=d, q=q, m=m, mode=mode, imputer=imp, storage='batch')
-                        if _cost(c) > (400 if tier == 'quick' else 6000):
+                        if _cost(c) > (400 if tier == 'quick' else 40000):
                             continue
                         add(**c)
     # storage kinds (each with update_storage on, so the storage's own update runs symbolically too)
@@ -77,6 +77,10 @@ def configs(tier):
     for mode in ('static', 'dynamic'):
         add(d=2, q=2, m=2, mode=mode, imputer='joint', storage='batch', labels=2)
         add(d=2, q=1, m=2, mode=mode, imputer='joint', storage='batch', bigger=True)
+        add(d=2, q=3, m=1, mode=mode, imputer='default', storage='batch')
+        add(d=2, q=2, m=1, mode=mode, imputer='joint', storage='batch', memoise=True)
+        add(d=2, q=3, m=2, mode=mode, imputer='joint', storage='batch', memoise=True, _cost=500)
+        add(d=2, q=1, m=2, mode=mode, imputer='joint', storage='batch', labels=2, swap_labels=True)
         for metric in ('MAE', 'MSE'):
             add(d=2, q=2, m=2, mode=mode, imputer='joint', storage='batch', loss='river:' + metric)
         add(d=2, q=2, m=2, mode=mode, imputer='joint', storage='batch', loss_type='int')
@@ -113,6 +117,8 @@ def scenario(env, cfg):
 def _step(env, cfg):
     b = build_incremental(env, IncrementalSage, cfg)
     ex, pre = b['ex'], b['pre']
+    if cfg.get('swap_labels'):
+        _swap_label(env, ex, pre)
     kw = {}
     if 'q_call' in cfg:
         kw['n_inner_samples'] = cfg['q_call']
@@ -120,6 +126,7 @@ def _step(env, cfg):
         kw['update_storage'] = False
     ret = guarded(env, 'explain_one', ex.explain_one, b['x'], b['y'], **kw)
     s, expl = _efficiency(env, ex)
+    env.claim('model_outputs_not_modified_by_the_library', b['model'].outputs_intact())
     # the invariant is re-established: every tracker advanced by exactly one update
     N1 = pre['N'] + 1
     counts = [ex._marginal_loss_tracker.N, ex._model_loss_tracker.N, ex._importance_trackers.N,
@@ -153,3 +160,15 @@ def _base(env, cfg):
             env.claim('first_call_only_seeds', And(len(b['model'].calls) == 0, len(b['loss'].calls) == 0,
                                                   eq(ex._importance_trackers.N, 0)))
     env.canary('efficiency_off_by_one', eq(s, expl + 1))
+
+
+def _swap_label(env, ex, pre):
+    """the marginal-prediction tracker knows labels {a, c}; the model emits {a, b}: one tracked label is absent from the
+    update while a new one arrives (same number of keys)"""
+    import copy
+    mv = ex._marginal_prediction_tracker
+    tr = mv.tracked_value.pop('b')
+    mv._tracked_keys.discard('b')
+    mv.tracked_value['c'] = tr
+    mv._tracked_keys.add('c')
+    pre['mpred']['c'] = pre['mpred'].pop('b')
